@@ -247,7 +247,7 @@ func VH_C16_newvoter(h *vrt.H) {
 	addrStr, cerr := k.AddrCodec.BytesToString(addrRaw)
 	vhMust(cerr)
 	regHeight := h.U64("registeredHeight")
-	keyHash := h.PickBytes(h.Bool("registeredGenuineKeyHash"), goatcrypto.SHA256Sum(blsKey), h.Bytes("registeredKeyHash", 32))
+	keyHash := vhPick(h, h.Bool("registeredGenuineKeyHash"), goatcrypto.SHA256Sum(blsKey), "registeredKeyHash")
 	regStatus := types.VoterStatus(h.Choose("registeredStatus", 0, 4))
 	if regStatus != 0 {
 		vhMust(k.Voters.Set(ctx, addrStr, types.Voter{Address: addrRaw, VoteKey: keyHash, Status: regStatus, Height: regHeight}))
@@ -255,7 +255,7 @@ func VH_C16_newvoter(h *vrt.H) {
 	// what the candidate really signed: the genuine registration document over fields of the
 	// harness' choosing, with each key
 	docFor := func(pfx string) []byte {
-		reg := types.NewOnBoardingVoterRequest(h.U64(pfx+"Height"), addrRaw, h.PickBytes(h.Bool(pfx+"GenuineHash"), goatcrypto.SHA256Sum(blsKey), h.Bytes(pfx+"Hash", 32)))
+		reg := types.NewOnBoardingVoterRequest(h.U64(pfx+"Height"), addrRaw, vhPick(h, h.Bool(pfx+"GenuineHash"), goatcrypto.SHA256Sum(blsKey), pfx+"Hash"))
 		return types.VoteSignDoc(reg.MethodName(), []string{"goat-verif-1", "other-chain-9"}[h.Choose(pfx+"Chain", 0, 1)], senders[h.Choose(pfx+"Proposer", 0, 1)], 0, h.U64(pfx+"Epoch"), reg.SignDoc())
 	}
 	txDoc, blsDoc := docFor("txSigned"), docFor("blsSigned")
